@@ -177,3 +177,79 @@ Example C10_transport_concrete :
   build_trees_fix true false edges [(1#2, 1)] = [(0%nat, 0); (1%nat, 1)] /\
   build_trees_fix true true edges [(1#2, 1)] = [(1%nat, 1); (0%nat, 0)].
 Proof. vm_compute. repeat split; reflexivity. Qed.
+
+(* ---- measurements over several linked patches: count_pairs writes, for every patch pair result and
+        in the order of arrival, column id1 of sum_weights1 and column id2 of sum_weights2 ---- *)
+
+(* for EVERY sequence of patch pairs (every linkage, every order in which the workers deliver) the
+   per-bin sum of weights recorded for a patch is the closed-side rule applied to the objects of
+   that patch alone (binned sample), resp. the patch total in every bin (sample without binning):
+   it does not depend on the partner patches, in particular not on a partner without objects in
+   the bin; bins / patches without objects give 0 (C10_empty_ok), populated ones their sum *)
+Theorem C10_count_pairs_member : forall cr edges binned1 hasw1 cat1 binned2 hasw2 cat2 pairs b p,
+  increasing edges -> (2 <= length edges)%nat -> (b < nbins edges)%nat ->
+  (forall ij, In ij pairs -> (fst ij < length cat1)%nat /\ (snd ij < length cat2)%nat) ->
+  let m := count_pairs_sw cr edges binned1 hasw1 cat1 binned2 hasw2 cat2 pairs in
+  ((p < length cat1)%nat -> (exists j, In (p, j) pairs) ->
+     nth p (nth b (fst m) []) 0 ==
+     (if binned1 then spec_weight hasw1 cr edges (nth p cat1 []) b else wsum hasw1 (nth p cat1 []))) /\
+  ((p < length cat2)%nat -> (exists i, In (i, p) pairs) ->
+     nth p (nth b (snd m) []) 0 ==
+     (if binned2 then spec_weight hasw2 cr edges (nth p cat2 []) b else wsum hasw2 (nth p cat2 []))).
+Proof. exact count_pairs_member. Qed.
+Print Assumptions C10_count_pairs_member.
+
+(* linkage and schedule are invisible in sum_weights *)
+Theorem C10_count_pairs_schedule_free : forall cr edges binned1 hasw1 cat1 binned2 hasw2 cat2 pairs pairs' b p,
+  increasing edges -> (2 <= length edges)%nat -> (b < nbins edges)%nat ->
+  (forall ij, In ij pairs -> (fst ij < length cat1)%nat /\ (snd ij < length cat2)%nat) ->
+  (forall ij, In ij pairs' -> (fst ij < length cat1)%nat /\ (snd ij < length cat2)%nat) ->
+  (p < length cat1)%nat -> (exists j, In (p, j) pairs) -> (exists j, In (p, j) pairs') ->
+  nth p (nth b (fst (count_pairs_sw cr edges binned1 hasw1 cat1 binned2 hasw2 cat2 pairs)) []) 0 ==
+  nth p (nth b (fst (count_pairs_sw cr edges binned1 hasw1 cat1 binned2 hasw2 cat2 pairs')) []) 0.
+Proof. exact count_pairs_schedule_free. Qed.
+Print Assumptions C10_count_pairs_schedule_free.
+
+(* the theorem has content: a pair result that leaves a bin at 0 when one of the two trees is empty
+   makes the objects of the populated partner vanish from the measurement *)
+Theorem C10_count_pairs_skip_refuted :
+  exists edges cat pairs, increasing edges /\ (2 <= length edges)%nat /\
+    pairs_ok (length cat) (length cat) pairs = true /\
+    fst (count_pairs_sw true edges true true cat true true cat pairs) = [[1; 0]; [0; 2]] /\
+    spec_sum_weights true true edges cat = [[1; 0]; [0; 2]] /\
+    fst (count_pairs_sw_skip true edges true true cat true true cat pairs) = [[0; 0]; [0; 2]] /\
+    snd (count_pairs_sw_skip true edges true true cat true true cat pairs) = [[1; 0]; [0; 0]].
+Proof. exact count_pairs_skip_refuted. Qed.
+Print Assumptions C10_count_pairs_skip_refuted.
+
+(* the checker the harness evaluates on every observed pair-count container (dd / dr / rd / rr) *)
+Theorem C10_count_case_sound : forall cr edges binned1 hasw1 cat1 binned2 hasw2 cat2 pairs obs1 obs2,
+  c10_count_case cr edges binned1 hasw1 cat1 binned2 hasw2 cat2 pairs obs1 obs2 = 0%nat ->
+  increasing edges /\ (2 <= length edges)%nat /\
+  forall b p, (b < nbins edges)%nat ->
+    ((p < length cat1)%nat -> nth p (nth b obs1 []) 0 ==
+       (if binned1 then spec_weight hasw1 cr edges (nth p cat1 []) b else wsum hasw1 (nth p cat1 []))) /\
+    ((p < length cat2)%nat -> nth p (nth b obs2 []) 0 ==
+       (if binned2 then spec_weight hasw2 cr edges (nth p cat2 []) b else wsum hasw2 (nth p cat2 []))).
+Proof. exact count_case_sound. Qed.
+Print Assumptions C10_count_case_sound.
+
+(* non-vacuity: three linked patches, three bins, data and randoms populate different (bin, patch)
+   cells (patch 1 of the data only bin 0, patch 2 only bin 2, bin 1 of the randoms only patch 1),
+   redshifts on inner and outer edges and outside; all nine patch pairs; closed = right with both
+   samples binned, closed = left with the second sample unbinned and unweighted; a populated cell
+   reported as 0 is flagged (flags 0, 2 and 5) *)
+Example C10_count_pairs_concrete :
+  let edges := [1#4; 1#2; 3#4; 1] in
+  let data := [[(1#4, 1); (3#8, 2); (1#2, 4); (5#8, 8); (1, 16); (5#4, 32)]; [(3#8, 1); (1#2, 2)]; [(7#8, 4); (1, 8)]] in
+  let rand := [[(7#8, 1)]; [(5#8, 2); (7#8, 4)]; [(3#8, 8)]] in
+  let pairs := [(0, 0); (1, 1); (2, 2); (0, 1); (1, 2); (0, 2); (1, 0); (2, 1); (2, 0)]%nat in
+  count_pairs_sw true edges true true data true true rand pairs =
+    ([[6; 3; 0]; [8; 0; 0]; [16; 0; 12]], [[0; 0; 8]; [0; 2; 0]; [1; 4; 0]]) /\
+  count_pairs_sw false edges true true data false false rand pairs =
+    ([[3; 1; 0]; [12; 2; 0]; [0; 0; 4]], [[1; 2; 1]; [1; 2; 1]; [1; 2; 1]]) /\
+  c10_count_case true edges true true data true true rand pairs
+    [[6; 3; 0]; [8; 0; 0]; [16; 0; 12]] [[0; 0; 8]; [0; 2; 0]; [1; 4; 0]] = 0%nat /\
+  c10_count_case true edges true true data true true rand pairs
+    [[6; 0; 0]; [8; 0; 0]; [16; 0; 12]] [[0; 0; 8]; [0; 2; 0]; [1; 4; 0]] = 37%nat.
+Proof. vm_compute. repeat split; reflexivity. Qed.
